@@ -169,6 +169,10 @@ func (e histEngine) Gen(r *R, tier string) any {
 	p := &HistPlan{Perm: r.Uint64()}
 	n := r.Range(1, 3)
 	for i := 0; i < n; i++ {
+		if i > 0 && r.P(0.4) { // related configurations: what one history moves between is rarely unrelated
+			p.Cfgs = append(p.Cfgs, varyCfg(r, p.Cfgs[r.Intn(i)]))
+			continue
+		}
 		p.Cfgs = append(p.Cfgs, genCfgX(r))
 	}
 	// start
@@ -234,7 +238,7 @@ func (e histEngine) Exec(plan any, c *Ctx) *Violation {
 	longLived = map[*cors.Middleware]*mwServer{}
 	observeTick = 0
 	for si, st := range p.Steps {
-		clockTick("a step")
+		betweenSteps("a step")
 		label := fmt.Sprintf("#%d %s", si, st.Kind)
 		if st.Cfg >= len(p.Cfgs) {
 			st.Cfg = 0
@@ -257,18 +261,18 @@ func (e histEngine) Exec(plan any, c *Ctx) *Violation {
 				m = zeroMW()
 				longLived[m] = newServer(m.Wrap) // wrapped while still passthrough
 				cc := p.Cfgs[st.Cfg].Config()
-				err = m.Reconfigure(&cc)
+				err = reconfN(m, &cc)
 				cur = st.Cfg
 			case "reconf":
 				cc := p.Cfgs[st.Cfg].Config()
-				err = m.Reconfigure(&cc)
+				err = reconfN(m, &cc)
 				cur = st.Cfg
 			case "reconf_nil":
-				err = m.Reconfigure(nil)
+				err = reconfN(m, nil)
 				cur = -1
 				dbgBelief = false
 			case "setdebug":
-				m.SetDebug(st.Debug)
+				setDebugN(m, st.Debug)
 				dbgBelief = st.Debug && cur >= 0
 			case "restore_via_nil":
 				if dbgBelief { // (Reconfigure(nil) switches debug off: the plain round trip instead)
@@ -568,7 +572,7 @@ func (e histEngine) f1(p *HistPlan, m *cors.Middleware, cur int, st HStep, label
 		c.hit("rejected_differs_from_current")
 	}
 	cc := bad.Config()
-	err := m.Reconfigure(&cc)
+	err := reconfN(m, &cc)
 	if err == nil {
 		return &Violation{Class: "accepted-invalid", Key: bad.String(), Detail: fmt.Sprintf("%s: Reconfigure accepted %s (planted %v)", label, bad, st.Planted)}
 	}
